@@ -572,7 +572,8 @@ class Builder:
             else:
                 i = self.new_var(unit=d(st.sampled_from(NAMES)))
             return {"k": "v", "i": i}, var_unit(self.vars[i])
-        c = d(st.sampled_from(["mul", "mul", "div", "div", "pow", "pow", "add", "add", "neg", "abs", "scal", "rdiv"] +
+        c = d(st.sampled_from(["mul", "mul", "div", "div", "pow", "pow", "add", "add", "neg", "abs", "scal", "rdiv",
+                               "ratio_scalar"] +
                               ([] if SQRT_KNOWN else ["sqrt"])))
         if c == "sqrt":
             # square_root is an ordinary operation unless it is a listed known finding (then only the
@@ -581,6 +582,16 @@ class Builder:
             if max(x.denominator for x in ua) > 30:
                 return a, ua
             return {"k": "sqrt", "a": {"k": "abs", "a": self.no_bare_view(a)}}, upow(ua, 1, 2)
+        if c == "ratio_scalar":
+            # `1 - a/b` with a and b of the same unit: a raw scalar combined, on either side, with a quantity
+            # without unit
+            a, ua = self.any_expr(depth - 1)
+            q = {"k": "bin", "op": "/", "a": a, "b": self.expr_of(ua, depth - 1)}
+            sc = self.scalar()
+            op = d(st.sampled_from("+-"))
+            if d(st.integers(0, 2)) > 0:
+                return {"k": "bin", "op": op, "a": sc, "b": q}, NOUNIT
+            return {"k": "bin", "op": op, "a": q, "b": sc}, NOUNIT
         if c in ("mul", "div"):
             a, ua = self.any_expr(depth - 1)
             b, ub = self.any_expr(depth - 1)
@@ -629,7 +640,11 @@ class Builder:
             return {"k": "neg", "a": self.expr_of(u, depth - 1)}
         if c == "nounit_scalar" and u == NOUNIT:
             # a quantity without unit may be combined with raw scalars
-            return {"k": "bin", "op": d(st.sampled_from("+-")), "a": self.expr_of(u, depth - 1), "b": self.scalar()}
+            # (on either side: `1 - d` is as common as `d - 1`)
+            q, sc = self.expr_of(u, depth - 1), self.scalar()
+            if d(st.booleans()):
+                return {"k": "bin", "op": d(st.sampled_from("+-")), "a": sc, "b": q}
+            return {"k": "bin", "op": d(st.sampled_from("+-")), "a": q, "b": sc}
         return {"k": "bin", "op": "*", "a": self.scalar(), "b": self.expr_of(u, depth - 1)}
 
     def statements(self, n, depth):
